@@ -8,6 +8,9 @@ import Ptn.C17.Reroot
 import Ptn.C17.Subtree
 import Ptn.C17.UpdatePath
 import Ptn.C17.Cache
+import Ptn.C17.Contig
+import Ptn.C17.Cut
+import Ptn.C17.Last
 /-! Property theorems for C17 (tree navigation, TDVP sweep order, initial cache keys).  Only
 property theorems and non-vacuity examples live here; helper lemmas are in `Lemmas.lean`,
 `Tree.lean`, `Path.lean`, ….  All theorems quantify over every ordered rooted tree `t` with
@@ -26,28 +29,8 @@ example : exTree.WF := by decide
 /-- `path_from_to(a, b)` completes and returns a simple path from `a` to `b`: it starts at `a`,
     ends at `b`, consecutive nodes are neighbours, no node repeats. -/
 theorem path_from_to_correct (t : RTree) (hwf : t.WF) (a b : Nat) (ha : a ∈ ids t)
-    (hb : b ∈ ids t) : ∃ p, pathFromTo t a b = some p ∧ IsSimplePath t p a b := by
-  by_cases hab : a = b
-  · subst hab
-    exact ⟨[a], by simp [pathFromTo], by simp [IsSimplePath, ha, Chain]⟩
-  · obtain ⟨pre, c, xs, ys, hpa, hpb, hd, hp⟩ := pathFromTo_shape hwf ha hb hab
-    refine ⟨_, hp, ?_, ?_, ?_, ?_, ?_⟩
-    · exact head_of_last ((pathDown_ends a).1 t _ hpa).2
-    · exact last_of_last ((pathDown_ends b).1 t _ hpb).2
-    · intro x hx
-      simp only [List.mem_append, List.mem_reverse, List.mem_cons] at hx
-      rcases hx with hx | rfl | hx
-      · exact (pathDown_subset a).1 t _ hpa x (by simp [hx])
-      · exact (pathDown_subset a).1 t _ hpa x (by simp)
-      · exact (pathDown_subset b).1 t _ hpb x (by simp [hx])
-    · have h1 := chain_append_right ((pathDown_chain a).1 t _ hpa)
-      have h2 := chain_append_right ((pathDown_chain b).1 t _ hpb)
-      apply chain_glue
-      · have := chain_reverse h1
-        simp only [List.reverse_cons] at this
-        exact chain_mono (fun x y h => Or.inr h) this
-      · exact chain_mono (fun x y h => Or.inl h) h2
-    · exact nodup_fork' (pathDown_nodup hwf hpa) (pathDown_nodup hwf hpb) hd
+    (hb : b ∈ ids t) : ∃ p, pathFromTo t a b = some p ∧ IsSimplePath t p a b :=
+  pathFromTo_isSimplePath hwf ha hb
 
 example : pathFromTo exTree 4 7 = some [4, 1, 0, 5, 6, 7] := by decide
 example : pathFromTo exTree 7 5 = some [7, 6, 5] := by decide
@@ -170,7 +153,7 @@ theorem update_path_end (t : RTree) (hwf : t.WF) :
     ∃ p l, updatePath t = some p ∧ p.getLast? = some l ∧ degree t l ≤ 1 := by
   cases t with
   | node r ks =>
-    obtain ⟨p, s, hp, _, _, _, hend⟩ := updatePath_spec r ks hwf
+    obtain ⟨p, s, hp, _, _, _, hend, _⟩ := updatePath_spec r ks hwf
     rcases hend with ⟨hlen, hlast⟩ | ⟨f, hlast, hleaf⟩
     · exact ⟨p, r, hp, hlast, degree_root_le_one hwf hlen⟩
     · exact ⟨p, f, hp, hlast, degree_leaf hwf hleaf⟩
@@ -179,6 +162,43 @@ example : updatePath exTree = some [7, 6, 5, 2, 0, 4, 1, 3] := by decide
 example : degree exTree 1 = 3 ∧ degree exTree 7 = 1 ∧ isLeaf exTree 7 = true := by decide
 /-- root with a single child: the path ends at the root -/
 example : updatePath (.node 0 [.node 1 [.node 2 [], .node 3 []]]) = some [2, 3, 1, 0] := by decide
+
+/-- On a tree with more than one node the last two nodes of the update path are neighbours (the
+    second-order sweeps go back over the path and take this for granted). -/
+theorem last_two_adjacent (t : RTree) (hwf : t.WF) (hkids : t.kids ≠ []) :
+    ∃ p l y z, updatePath t = some p ∧ p = l ++ [y, z] ∧ Adj t y z := by
+  cases t with
+  | node r ks => exact updatePath_last_two r ks hwf hkids
+
+example : exTree.kids ≠ [] := by decide
+
+/-- The nodes below any node other than the root are visited consecutively by the update path. -/
+theorem update_path_subtree_blocks (t : RTree) (hwf : t.WF) (x : Nat) (hx : x ∈ ids t)
+    (hxr : x ≠ t.rid) :
+    ∃ p l A B C, updatePath t = some p ∧ subtreeIds t x = some l ∧ p = A ++ B ++ C ∧
+      (∀ y ∈ B, y ∈ l) ∧ (∀ y ∈ A, y ∉ l) ∧ (∀ y ∈ C, y ∉ l) := by
+  cases t with
+  | node r ks =>
+    obtain ⟨p, s, hp, _, _, _, _, hshape⟩ := updatePath_spec r ks hwf
+    obtain ⟨sx, hsx⟩ := (subtreeAt_isSome x).1 _ hx
+    have hsub : sx ∈ subtreesL ks := by
+      have hsx' := hsx
+      rw [subtreeAt_node] at hsx'
+      have : ¬ r = x := fun e => hxr (by simp [rid, e])
+      simp [this] at hsx'
+      exact (subtreeAt_mem_subtrees x).2 ks sx hsx'
+    obtain ⟨A, B, C, e, h1, h2, h3⟩ := updatePath_contig hwf hshape sx hsub
+    exact ⟨p, ids sx, A, B, C, hp, by simp [subtreeIds, hsx], e, h1, h2, h3⟩
+
+/-- Walking the update path - from every node to the next one along `path_from_to` - crosses no
+    edge of the tree more than twice (`w` lists all crossings, orientation forgotten). -/
+theorem update_path_edge_crossings (t : RTree) (hwf : t.WF) :
+    ∃ p w, updatePath t = some p ∧ walkEdges t p = some w ∧ ∀ e, w.count e ≤ 2 := by
+  cases t with
+  | node r ks => exact updatePath_crossings r ks hwf
+
+example : walkEdges exTree [7, 6, 5, 2, 0, 4, 1, 3] =
+    some [(6, 7), (5, 6), (0, 5), (0, 2), (0, 2), (0, 1), (1, 4), (1, 4), (1, 3)] := by decide
 
 /-! ### Keys of the initial environment cache -/
 
